@@ -100,14 +100,16 @@ impl<T: Send + Sync> AtomicIter<T> for ConIterOfVec<T> {
     fn progress_and_get_begin_idx(&self, number_to_fetch: usize) -> Option<usize> {
         // an exhausted iterator is not advanced any further: however often it is polled after the end, the counter
         // stays where it is and cannot wrap around to positions that are already delivered
-        if self.counter().current() >= self.initial_len() {
+        let current = self.counter().current();
+        if current >= self.initial_len() {
             return None;
         }
 
-        // no more than `initial_len` positions are ever needed: clamping keeps the counter from wrapping for huge requests
+        // no more than the positions that are left are ever needed: clamping keeps the counter from wrapping,
+        // for huge requests as well as for sources that span more than half of the index space
         let begin_idx = self
             .counter()
-            .fetch_and_add(number_to_fetch.min(self.initial_len()));
+            .fetch_and_add(number_to_fetch.min(self.initial_len() - current));
         match begin_idx.cmp(&self.initial_len()) {
             Ordering::Less => Some(begin_idx),
             _ => None,
